@@ -4,7 +4,7 @@ EXPLANATION = ('cbmc over the real soxr_create / initialise / fatal_error / soxr
                'and the engine create call may fail for any channel: no NULL is dereferenced (cbmc pointer checks), the call reports an '
                'error (NULL handle + *error / sticky error), nothing is leaked (live-block counter 0) and every engine object is closed '
                'exactly once, soxr_delete is safe afterwards.')
-ASSUMPTIONS = ['allocation sites below the engine boundary (cr.c/filter.c/fifo.h/vr32.c) are the subject of the engine-side obligations; see known findings']
+ASSUMPTIONS = ['engine side: only the quick-recipe path of _soxr_init is decided (stage array checked, FIFO allocations: known finding); the allocation sites of the filter design, DFT set-up, poly-phase tables, FIFO growth and vr32.c are NOT decided (DESIGN.md I.3)']
 
 def obligations(tier):
     obls = []
@@ -14,4 +14,7 @@ def obligations(tier):
     if tier == 'thorough':
         obls += [create_obl(1, 0, 2), create_obl(1, 1, 2), create_obl(1, 2, 2, orate='0.0')]
     obls += [create_obl(1, 2, 2, orate='0.0'), create_obl(1, 8, 1, orate='0.0')]
+    # engine side, quick recipe: every allocation of the real _soxr_init may fail (cbmc --malloc-may-fail): the stage array is checked,
+    # the FIFO allocations are not (known finding; excluded in the first obligation, re-found by the probe)
+    obls += [init_qq_obl(may_fail=True), init_qq_obl(may_fail=True, kf='KF_C20_FIFO_CREATE')]
     return obls
